@@ -11,7 +11,7 @@ import (
 )
 
 // handWrittenCopiesAreComplete: a composite literal of a route attribute type (route.Path, route.BGPPath, route.BGPPathA)
-// that takes three or more of its fields from the same-named fields of ANOTHER value of that type is a hand-written copy.
+// that takes two or more of its fields from the same-named fields of ANOTHER value of that type is a hand-written copy.
 // Such a copy must name every field of the type: a field left out is silently zero in the copy — for BGPPath that is how a
 // CLUSTER_LIST or an ORIGINATOR_ID is lost between the UPDATE and the Adj-RIB-In (loop detection never sees it), or a
 // community list between the tables.  The generated (*T).Copy methods use `cp := *p`, which copies every field, and are
@@ -23,6 +23,9 @@ func handWrittenCopiesAreComplete(c *core.Ctx, rule string) {
 		if t := p.Named("route", n); t != nil {
 			targets[t] = true
 		}
+	}
+	if t := p.Named("protocols/bgp/packet", "PathAttribute"); t != nil {
+		targets[t] = true
 	}
 	nCopies, nLits := 0, 0
 	for _, f := range p.AllFuncs() {
@@ -95,12 +98,16 @@ func handWrittenCopiesAreComplete(c *core.Ctx, rule string) {
 					fromSame++
 				}
 			}
-			if fromSame < 3 {
+			if fromSame < 2 {
 				return true
 			}
 			nCopies++
 			var missing []string
 			for i := 0; i < st.NumFields(); i++ {
+				// a link to the next element of the same type is list structure, not content: a copy of one element leaves it out
+				if pt, isPtr := st.Field(i).Type().(*types.Pointer); isPtr && types.Identical(pt.Elem(), named) {
+					continue
+				}
 				if !keyed[st.Field(i).Name()] {
 					missing = append(missing, st.Field(i).Name())
 				}
